@@ -290,6 +290,98 @@ def RecordJoinBase(rng, clash):
   return Prog(preds), (None if clash else gamma)
 
 
+# ---- family D: else-if chains ---------------------------------------------------
+
+def IfChainBase(rng, n_branches, bad_pos, bad_kind):
+  """`Q(a, (if c1 then v1 else if c2 then v2 ... else w)) :- T(a, b)`: one
+  else-if chain (not nested parenthesised ifs) of n_branches conditions.
+  bad_pos (None: well typed) is the position of the one condition that is not
+  Bool: a bare Num variable, a bare Str variable or an arithmetic expression."""
+  a, b = Var('a'), Var('b')
+  t = Pred('T', [_Fact(N(rng.choice([0, 1, 2])), S(rng.choice(['x', 'y'])))
+                 for _ in range(rng.randint(2, 3))])
+  vt = rng.choice([NUM, STR])
+
+  def GoodCond():
+    if rng.random() < 0.5:
+      return Op(rng.choice(['==', '<', '>=']), a, Lit(N(rng.choice([0, 1]))))
+    return Op(rng.choice(['==', '!=']), b, Lit(S(rng.choice(['x', 'y']))))
+
+  def BadCond():
+    return {'num': a, 'str': b,
+            'expr': Op('+', a, Lit(N(1)))}[bad_kind]
+  conds = [BadCond() if k == bad_pos else GoodCond()
+           for k in range(n_branches)]
+  vals = [Lit(_Val(vt, rng)) for _ in range(n_branches + 1)]
+  node = vals[-1]
+  for k in reversed(range(n_branches)):
+    node = If(conds[k], vals[k], node)
+    node['form'] = 'chain_inner'
+  node['form'] = 'chain'
+  body = [Atom('T', [('col0', a), ('col1', b)])]
+  if rng.random() < 0.6:
+    body.append(Cmp(Op('<=', a, Lit(N(3)))))
+  if rng.random() < 0.4:
+    body.append(Cmp(Op('!=', b, Lit(S('zz')))))
+  q = Pred('Q', [Rule([('col0', a, ''), ('col1', node, '')], body)])
+  preds = [t, q]
+  gamma = {'T': {'col0': NUM, 'col1': STR}, 'Q': {'col0': NUM, 'col1': vt}}
+  if rng.random() < 0.5:
+    preds.append(Pred('U', [Rule([('col0', Var('v'), '')],
+                                 [Atom('Q', [('col0', Var('k')),
+                                             ('col1', Var('v'))])])]))
+    gamma['U'] = {'col0': vt}
+  return Prog(preds), (gamma if bad_pos is None else None)
+
+
+# ---- family E: one list-typed variable read from two predicates -----------------
+
+def ListJoinBase(rng, clash, shape):
+  """`Q(id, l) :- T(id, l), S(id, l)`; the list types of T and S differ in the
+  clashing variant.  No list literal / `in` / Element / field access on l in
+  the rule.  shape: 'list' ([t]), 'recfield' ({l: [t], n: Num}), 'listrec'
+  ([{a: t}]).  Tables have >= 2 rows (not injected)."""
+  et = rng.choice([NUM, STR])
+  eo = (STR if et == NUM else NUM) if clash else et
+
+  def Col(e):
+    if shape == 'list':
+      return ['L', e]
+    if shape == 'recfield':
+      return ['R', {'l': ['L', e], 'n': NUM}]
+    return ['L', ['R', {'a': e}]]
+
+  def Value(e):
+    items = [Lit(_Val(e, rng)) for _ in range(rng.randint(1, 2))]
+    if shape == 'list':
+      return ListE(items)
+    if shape == 'recfield':
+      fs = [('l', ListE(items)), ('n', Lit(N(rng.choice([1, 2]))))]
+      rng.shuffle(fs)
+      return RecE(fs)
+    return ListE([RecE([('a', it)]) for it in items])
+
+  def Table(name, e):
+    return Pred(name, [Rule([('col0', Lit(N(k)), ''), ('col1', Value(e), '')],
+                            [])
+                       for k in range(rng.randint(2, 3))])
+  i, l = Var('i'), Var('l')
+  body = [Atom('T', [('col0', i), ('col1', l)]),
+          Atom('S', [('col0', i), ('col1', l)])]
+  rng.shuffle(body)
+  if rng.random() < 0.4:
+    body.append(Cmp(Op('>=', i, Lit(N(0)))))
+  head = [('col0', i, ''), ('col1', l, '')] if rng.random() < 0.7 else \
+      [('col0', i, '')]
+  preds = [Table('T', et), Table('S', eo), Pred('Q', [Rule(head, body)])]
+  rng.shuffle(preds)
+  gamma = {'T': {'col0': NUM, 'col1': Col(et)},
+           'S': {'col0': NUM, 'col1': Col(eo)},
+           'Q': {'col0': NUM, 'col1': Col(et)} if len(head) == 2
+                else {'col0': NUM}}
+  return Prog(preds), (None if clash else gamma)
+
+
 def DeclOrders(prog, rng, n):
   out = []
   for j in range(n):
@@ -302,7 +394,11 @@ def DeclOrders(prog, rng, n):
   return out
 
 
-def Cases(rng, n_a, n_b, n_c=None):
+IFCHAIN_CLASH = [(2, 0), (2, 1), (3, 0), (3, 1), (3, 2)]
+LISTJOIN_SHAPES = ['list', 'recfield', 'listrec']
+
+
+def Cases(rng, n_a, n_b, n_c=None, n_d=0, n_e=0):
   """[(family id, kind, expect_ok, prog, gamma, variants [(name, prog)])]"""
   out = []
   for i in range(n_a):
@@ -322,8 +418,30 @@ def Cases(rng, n_a, n_b, n_c=None):
     prog, gamma = RecordJoinBase(rng, clash)
     out.append(('fc%d' % i, 'recjoin_clash' if clash else 'recjoin_ok',
                 not clash, prog, gamma, DeclOrders(prog, rng, 1)))
+  kinds = ['num', 'str', 'expr']
+  for i in range(n_d):
+    if i % 3 == 2:
+      prog, gamma = IfChainBase(rng, 2 + (i // 3) % 2, None, None)
+      kind = 'ifchain_ok'
+    else:
+      j = (i - i // 3)
+      n, pos = IFCHAIN_CLASH[j % len(IFCHAIN_CLASH)]
+      prog, gamma = IfChainBase(rng, n, pos, kinds[j % 3])
+      kind = 'ifchain_clash_pos%d' % pos
+    out.append(('fd%d' % i, kind, gamma is not None, prog, gamma,
+                DeclOrders(prog, rng, 1)))
+  for i in range(n_e):
+    clash = i % 3 != 2
+    shape = LISTJOIN_SHAPES[(i - i // 3) % 3 if clash else (i // 3) % 3]
+    prog, gamma = ListJoinBase(rng, clash, shape)
+    out.append(('fe%d' % i, ('listjoin_clash_' if clash else 'listjoin_ok_')
+                + shape, not clash, prog, gamma, DeclOrders(prog, rng, 1)))
   return out
 
 
 KINDS = ['ruleorder_clash', 'ruleorder_ok', 'openrec_one', 'openrec_two',
-         'openrec_missing', 'openrec_wrongtype', 'recjoin_clash', 'recjoin_ok']
+         'openrec_missing', 'openrec_wrongtype', 'recjoin_clash', 'recjoin_ok',
+         'ifchain_clash_pos0', 'ifchain_clash_pos1', 'ifchain_clash_pos2',
+         'ifchain_ok', 'listjoin_clash_list', 'listjoin_clash_recfield',
+         'listjoin_clash_listrec', 'listjoin_ok_list', 'listjoin_ok_recfield',
+         'listjoin_ok_listrec']
